@@ -87,6 +87,42 @@ def bracket_rules(chk, P, prefix):
 OVERLAYS = ('K2b',)
 
 
+def open_disabled_rule(chk, P, prefix):
+    def open_disabled():
+        b = P.body("emit_core::ctxt::Ctxt::open_disabled")
+        cs = b.calls_to(trait=CTXT, name="open_push")
+        if len(cs) != 1 or b.count_on_paths({cs[0].bb}) != (1, 1):
+            return False, "the default open_disabled must be open_push(Empty)", [], b.span
+        a = b.origin(cs[0].args[1])
+        ty = a[1].get("adt") if a[0] == "agg" else (a[1].get("ty") if a[0] == "const" else None)
+        if not (ty or "").endswith("empty::Empty"):
+            return False, "open_disabled pushes %s, not Empty" % o_str(a), [], cs[0].loc
+        if [x for x in P.find(trait=CTXT, method="open_disabled", self_ty=TLC)]:
+            return False, "ThreadLocalCtxt overrides open_disabled (rule needs re-reading)", [], None
+        return True, "", [cs[0].loc]
+    chk.ob("%s.R9:open_disabled" % prefix, "a disabled frame adds nothing: open_push(Empty)", open_disabled)
+
+
+def ctxt_forwarding(chk, P, prefix, floor):
+    """Every wrapper / erased-bridge impl of Ctxt forwards each frame operation to the same-named inner method."""
+    n = 0
+    for b in P.find(trait=CTXT):
+        if b.is_closure or b.method not in ("enter", "exit", "close", "open_root", "open_push", "open_disabled", "with_current"):
+            continue
+        if common.is_wrapper_self(b.self_ty) and b.crate == "emit_core":
+            n += 1
+            cr = not (b.self_ty or "").startswith("(dyn")  # erased frames are re-wrapped
+            chk.ob("%s.forward:%s" % (prefix, b.key), "forwarding Ctxt impl calls the same-named inner method exactly once",
+                   lambda b=b, cr=cr: common.forward_check(b, check_return=cr), loc=b.span)
+    for b in P.bodies.values():
+        if b.trait and "DispatchCtxt" in b.trait and not b.is_closure:
+            n += 1
+            chk.ob("%s.forward:%s" % (prefix, b.key), "erased Ctxt bridge calls the same-named generic method exactly once",
+                   lambda b=b: common.forward_check(b, check_return=False, check_params=False), loc=b.span)
+    chk.floor("forwarding / erased Ctxt methods", n, floor)
+
+
+
 def run(chk):
     P = mir.Program("K1")
     chk.use_program(P)
@@ -440,19 +476,7 @@ def run(chk):
         return True, "", [cur[0].loc, ins[0].loc, mm[0].loc]
     chk.ob("C03.R9:open_push", "a pushed frame is the current snapshot (copy-on-write) overlaid by the pushed properties", open_push)
 
-    def open_disabled():
-        b = P.body("emit_core::ctxt::Ctxt::open_disabled")
-        cs = b.calls_to(trait=CTXT, name="open_push")
-        if len(cs) != 1 or b.count_on_paths({cs[0].bb}) != (1, 1):
-            return False, "the default open_disabled must be open_push(Empty)", [], b.span
-        a = b.origin(cs[0].args[1])
-        ty = a[1].get("adt") if a[0] == "agg" else (a[1].get("ty") if a[0] == "const" else None)
-        if not (ty or "").endswith("empty::Empty"):
-            return False, "open_disabled pushes %s, not Empty" % o_str(a), [], cs[0].loc
-        if [x for x in P.find(trait=CTXT, method="open_disabled", self_ty=TLC)]:
-            return False, "ThreadLocalCtxt overrides open_disabled (rule needs re-reading)", [], None
-        return True, "", [cs[0].loc]
-    chk.ob("C03.R9:open_disabled", "a disabled frame adds nothing: open_push(Empty)", open_disabled)
+    open_disabled_rule(chk, P, "C03")
 
     def with_current():
         b = P.impl_method(CTXT, TLC, "with_current")
@@ -479,22 +503,7 @@ def run(chk):
         return True, "", tys
     chk.ob("C03.R10:ThreadLocalCtxtFrame", "a frame is an immutable shared snapshot (Arc, no interior mutability): moving it carries its properties", frame_adt)
 
-    # ---- forwarding Ctxt impls -------------------------------------------------------------------------------------------
-    n = 0
-    for b in P.find(trait=CTXT):
-        if b.is_closure or b.method not in ("enter", "exit", "close", "open_root", "open_push", "open_disabled", "with_current"):
-            continue
-        if common.is_wrapper_self(b.self_ty) and b.crate == "emit_core":
-            n += 1
-            cr = not (b.self_ty or "").startswith("(dyn")  # erased frames are re-wrapped
-            chk.ob("C03.forward:%s" % b.key, "forwarding Ctxt impl calls the same-named inner method exactly once",
-                   lambda b=b, cr=cr: common.forward_check(b, check_return=cr), loc=b.span)
-    for b in P.bodies.values():
-        if b.trait and "DispatchCtxt" in b.trait and not b.is_closure:
-            n += 1
-            chk.ob("C03.forward:%s" % b.key, "erased Ctxt bridge calls the same-named generic method exactly once",
-                   lambda b=b: common.forward_check(b, check_return=False, check_params=False), loc=b.span)
-    chk.floor("forwarding / erased Ctxt methods", n, 28)
+    ctxt_forwarding(chk, P, "C03", 28)
 
     common.arg_agreement_rule(chk, P, "C03", [("emit", "src/frame.rs"), ("emit", "src/platform/thread_local_ctxt.rs"),
                                                ("emit_core", "src/ctxt.rs")], 3)
